@@ -76,6 +76,19 @@ fn parse_style_c<C: ColNum>(t: &mut Toks) -> PrimitiveStyle<C> {
     b.build()
 }
 
+/// `pixels()` of one styled shape (Rgb565) as an iterator: nth / fold / count / last / skip / step_by / size_hint agree
+/// with the plain `next()` sequence, also after some `next()` calls.
+fn pixels_protocol(op: &str, ctx: &mut Ctx) {
+    let mut t = Toks::new(op);
+    let _ = t.str();
+    let shape = Shape::parse(&mut t);
+    let style: PrimitiveStyle<Rgb565> = parse_style(&mut t);
+    with_shape!(&shape, p => {
+        let s = Styled::new(p.clone(), style);
+        iter_protocol_check(ctx, "iterator-protocol:styled-pixels", s.pixels(), 600);
+    })
+}
+
 /// The three drawing paths of C01 for one styled shape with colour type `C`: (map of `draw()` on R1,
 /// its call log, map of `draw()` on R2, map of `pixels()` fed to `draw_iter`).
 fn paths_run<C: ColNum>(op: &str, tb: Rectangle) -> (PMap, String, PMap, PMap) {
@@ -408,6 +421,10 @@ impl Module for M {
                 };
                 if !m1.is_empty() {
                     ctx.nontrivial(op);
+                }
+                // the pixels() iterator itself, consumed in other ways than next() (small shapes only)
+                if mp.len() <= 300 {
+                    pixels_protocol(op, ctx);
                 }
                 ctx.expect(m1 == m2, &format!("C01:native-vs-default:{}", kind), || format!("R1 {} px, R2 {} px", m1.len(), m2.len()));
                 // rounded rectangles: the C01 face of the known C06 finding gets its own class (see m_rrect.rs)
